@@ -1,1 +1,3 @@
 import AL.Impl.Api
+import AL.Spec.Api
+import AL.Properties.C12
